@@ -191,6 +191,35 @@ fn enumerate(ctx: &mut Ctx, mode: Mode) {
             }
         }
     }
+    // (a') every string of length <= 2 (thorough <= 3) placed in each syntactic context
+    let ctx_len = tier.pick(2usize, 3usize);
+    for (cname, tpl) in CONTEXTS.iter().skip(1) {
+        for len in 1..=ctx_len {
+            let prefixes = SIGMA.len().pow((len - 1) as u32);
+            for p in 0..prefixes {
+                ctx.case(
+                    || json!({"space":"strings-in-context","context":cname,"len":len,"prefix_index":p}),
+                    |ctx| {
+                        let db = new_db();
+                        let mut idx = vec![0usize; len];
+                        let mut q = p;
+                        for k in (0..len - 1).rev() {
+                            idx[k] = q % SIGMA.len();
+                            q /= SIGMA.len();
+                        }
+                        for last in 0..SIGMA.len() {
+                            idx[len - 1] = last;
+                            let inner: String = idx.iter().map(|&i| SIGMA[i]).collect::<Vec<_>>().join(" ");
+                            let s = tpl.replace('$', &inner);
+                            ctx.distinct(&s);
+                            ctx.count("context_texts", 1);
+                            check_text(ctx, mode, &db, &s, &|| json!({"context":cname,"tokens":idx.iter().map(|&i| SIGMA[i]).collect::<Vec<_>>()}));
+                        }
+                    },
+                );
+            }
+        }
+    }
     // (c) nesting families × every depth 1..200
     for (name, f) in nesting_families() {
         for depth in 1..=200usize {
@@ -267,7 +296,7 @@ fn run_c10(ctx: &mut Ctx) {
 pub static C10: CheckDef = CheckDef {
     id: "C10",
     level: "exploration",
-    rule: "Complete enumeration, on the real parser, of: (a) every string over the 59-lexeme alphabet SIGMA of length <=3 (quick) / <=4 plus length <=5 over the 20-lexeme SIGMA2 (thorough), joined with \" \" and with \"\"; (b) for each corpus .cairo file (quick: 60 smallest <=1.5KB; thorough: all <=8KB) the unmutated text and every single-point mutant: truncation at every char (files<=600B) or token boundary, every token deleted/duplicated/swapped with next/replaced by each of 12 structural lexemes, every bracket-matched subtree deleted/duplicated; (c) 25 nesting constructs x every depth 1..200. Oracle per text: leaves concatenated == text; children spans tile the parent; width == span; leaf text == text[span]; get_text(n)==text[span(n)]; root spans the file. distinct_nontrivial = distinct texts (hash).",
+    rule: "Complete enumeration, on the real parser, of: (a) every string over the 69-lexeme alphabet SIGMA of length <=3 (quick) / <=4 plus length <=5 over the 20-lexeme SIGMA2 (thorough), joined with \" \" and with \"\"; (a') every SIGMA string of length <=2 (thorough <=3) placed inside each of 16 syntactic contexts (fn body, struct/enum/trait/impl body, fn/generic/closure parameters, match arms, call arguments, struct constructor, use tree, attribute arguments, let pattern, type position, macro rule); (b) for each corpus .cairo file (quick: 60 smallest <=1.5KB; thorough: all <=8KB) the unmutated text and every single-point mutant: truncation at every char (files<=600B) or token boundary, every token deleted/duplicated/swapped with next/replaced by each of 12 structural lexemes, every bracket-matched subtree deleted/duplicated; (c) 25 nesting constructs x every depth 1..200. Oracle per text: leaves concatenated == text; children spans tile the parent; width == span; leaf text == text[span]; get_text(n)==text[span(n)]; root spans the file. distinct_nontrivial = distinct texts (hash).",
     assumptions: &["SimpleParserDatabase::parse_virtual_with_diagnostics is the parser entry point used by every tool", "texts outside the enumerated spaces are not covered"],
     run: run_c10,
     stack_mb: 8,
